@@ -17,6 +17,26 @@ CHECKS = {
         'random and named programs x limits; every implementation answer within budget is re-decided by the extracted spec ref_run.',
    note=COMMON_NOTE + 'Theorems closed under the global context. u64 overflow of steps/counts not modelled (unreachable within explored limits).',
    tech='Rocq/Coq proof (simulation invariant, induction over cycles) + model/implementation correspondence + extracted-spec oracle'),
+ 'C04': dict(cat='other', sec='DESIGN.md §6 C04, §5 F1/F2',
+   text='The full statement is FALSE of the unchanged code and that is machine-checked: C04_bw_halt_refuted_F1, C04_bw_spin_refuted_F1, '
+        'C04_bw_halt_refuted_F2, C04_stmt_refuted (witnesses by vm_compute on the faithful Gallina model of reason.rs, which is tied to the '
+        'code on every run incl. Refuted step numbers and panics). Proved positively: depth monotonicity with the same step number (C04_bw_mono). '
+        'Every refutation the implementation gives on the explored programs is tested against a real run (native pre-filter, confirmed by the '
+        'extracted cell-by-cell spec); falsified refutations are attributed to the two recorded call sites by model counterfactuals '
+        '(KNOWN-FINDING), anything else is a VIOLATION with the program/goal/depth as replay. Unguarded global soundness is not a theorem here.',
+   note=COMMON_NOTE + 'Known findings F1 (reason.rs:175-177) and F2 (instrs.rs params) are open: their repair changes pinned test counts. '
+        'Attribution by counterfactual assumes the faithful model agrees with the code on the case (checked).',
+   tech='Rocq/Coq refutation theorems + monotonicity proof + model/implementation correspondence + extracted-spec oracle exploration'),
+ 'C07': dict(cat='proof', sec='DESIGN.md §6 C07',
+   text='Coq theorem C07_rec_sound over the Gallina model of quick_term_or_rec/aligns_with/compare_take: for every normal-form program and EVERY '
+        'cycle limit, Recur implies the real machine never halts, Spinout implies it spins out, Undefined(slot) implies it halts exactly there. '
+        'Proof: loop invariant (snapshot is a real past configuration, leftmost/rightmost bound every head position since) + compare_take/aligns_with '
+        'specification on canonical tapes + the translated-cycle theorem on the absolute-tape semantics (C07_translated_cycle, with the no-spin-out '
+        'extension C07_translated_cycle_no_spinout). Tie: real quick_term_or_rec vs extracted model on 2x2-exhaustive NF, random and named programs x limits; '
+        'every settled verdict of the implementation is re-decided by the extracted spec (plain run; brute-force translated-cycle certificate search).',
+   note=COMMON_NOTE + 'Theorems closed under the global context. "Never spins out" after Recur is proved at the semantic level (conditional on no spin-out during '
+        'the first period), not yet carried through the loop invariant. isize head positions modelled as Z.',
+   tech='Rocq/Coq proof (loop invariant + translated-cycle theorem) + model/implementation correspondence + extracted-spec oracle'),
  'C12': dict(cat='proof', sec='DESIGN.md §6 C12',
    text='Coq theorems over the Gallina model of tape.rs: canonical form is an invariant of Tape::step for every direction/colour/sweep flag '
         'and hence every history (induction), canonical tapes are unique representations of their cells, and marks/blank/at_edge/blocks/'
